@@ -7,7 +7,7 @@ namespace sim {
 
 static const char *OPN[] = {"NEW", "LOAD", "DECL_POINT", "DECL_ANALOG", "SET_RATE", "PARAM", "PARAM_SETBAD", "LOCK_GROUP",
                             "UNLOCK_GROUP", "FRAME_BUILD", "FRAME_SUBMIT", "FRAME_MUTATE", "COL_POINT", "COL_ANALOG",
-                            "COL_MUTATE", "SAVE", "RELOAD", "PRINT", "FILL_GAPS", "BULK_FRAMES", "FRAME_DUP", "PARAM_EDIT", "LOOKUP"};
+                            "COL_MUTATE", "SAVE", "RELOAD", "PRINT", "FILL_GAPS", "BULK_FRAMES", "FRAME_DUP", "PARAM_EDIT", "LOOKUP", "ADOPT"};
 
 const char *op_name(int op) { return (op >= 0 && op < OP_NOPS) ? OPN[op] : "?"; }
 int op_from_name(const std::string &s) {
